@@ -138,6 +138,7 @@ def build(G):
     G.file(os.path.join(PRELUDE, "wire_spec.rs"))
     zone_types(G, with_zones=False)
     G.file(os.path.join(PRELUDE, "hash.rs"))
+    G.raw(OWNERS_OK_RS, ("spec", "owners_ok"))
     G.file(os.path.join(VERIF, "units", "zone_lookup.spec.rs"))
     G.raw(BUILD_SPEC_RS, ("spec", "zone_build spec"))
     T, Z = G.src(TYPES), G.src(ZTYPES)
